@@ -199,11 +199,11 @@ package flood
 //@ prop C06 C11 C13 C14
 //@ modifies *, c06fresh
 //@ loop 0 invariant -1 <= rangeindex && rangeindex < len(localRoutes) && len(routes) == rangeindex + 1
-//@ loop 0 invariant forall i in 0..rangeindex+1: routes[i].Metric == localRoutes[i].Metric && routes[i].Prefix == localRoutes[i].Network.IP && routes[i].PrefixLength == maskOnes(localRoutes[i].Network.Mask) % 256 && routes[i].AddressFamily == ite(maskBits(localRoutes[i].Network.Mask) == 128, 2, 1)
+//@ loop[C06] 0 invariant forall i in 0..rangeindex+1: routes[i].Metric == localRoutes[i].Metric && routes[i].Prefix == localRoutes[i].Network.IP && routes[i].PrefixLength == maskOnes(localRoutes[i].Network.Mask) % 256 && routes[i].AddressFamily == ite(maskBits(localRoutes[i].Network.Mask) == 128, 2, 1)
 //@ loop 1 invariant -1 <= rangeindex && rangeindex < len(localDomainRoutes) && len(routes) == len(localRoutes) + rangeindex + 1
-//@ loop 1 invariant forall j in len(localRoutes)..len(routes): routes[j].Metric == localDomainRoutes[j - len(localRoutes)].Metric && routes[j].AddressFamily == 3 && routes[j].PrefixLength == ite(localDomainRoutes[j - len(localRoutes)].IsWildcard, 1, 0)
+//@ loop[C06] 1 invariant forall j in len(localRoutes)..len(routes): routes[j].Metric == localDomainRoutes[j - len(localRoutes)].Metric && routes[j].AddressFamily == 3 && routes[j].PrefixLength == ite(localDomainRoutes[j - len(localRoutes)].IsWildcard, 1, 0)
 //@ loop 2 invariant -1 <= rangeindex && rangeindex < len(localForwardRoutes) && len(routes) == len(localRoutes) + len(localDomainRoutes) + rangeindex + 1
-//@ loop 2 invariant forall j in len(localRoutes) + len(localDomainRoutes)..len(routes): routes[j].Metric == localForwardRoutes[j - len(localRoutes) - len(localDomainRoutes)].Metric && routes[j].AddressFamily == 4
+//@ loop[C06] 2 invariant forall j in len(localRoutes) + len(localDomainRoutes)..len(routes): routes[j].Metric == localForwardRoutes[j - len(localRoutes) - len(localDomainRoutes)].Metric && routes[j].AddressFamily == 4
 //@ after call IncrementSequence let seq = $ret
 //@ after call EncodePath let pathBytes = $ret
 //@ at[C13] call EncodePath assert len($0) == 1 && $0[0] == f.localID
